@@ -529,6 +529,10 @@ def rep_inputs(tier):
                     out.append(base + tail)
     out += ["ab  ba", "ab ba", "abba", "abbaa", "ab  b", "ab   ba", "ab  b a", "abb", "abbaaa", "ab ba a a", "abab ba", "ab ab",
             "ba ab", "baab", "baabaa", "b a a a a a", "baaaaaa", "b aa aa aa", "ba a a a a a", "aaaaaaab", "a a a a a a a b"]
+    # replace-top elements (rawgen.replace_grammars): prefix pushes, k matched iterations, then a failing one / the bound, then
+    # text for the stack-reading suffix
+    out += ["abbbba", "abbbbba", "abbbbbb", "a b b b a", "a b b b b a", "a b b b b b", "abbbab", "abbab", "abbbbab",
+            "abbaab", "abbaabb", "abababa", "ababab", "abbabab", "ab b a a b", "abaabb", "abbbaa", "abbbbaa", "ababbab"]
     have = set(exh)
     targeted = []
     for x in out:
